@@ -5,6 +5,7 @@ import (
 
 	"github.com/goatcms/goatcore/filesystem"
 	"github.com/goatcms/goatcore/varutil"
+	"github.com/goatcms/goatcore/varutil/goaterr"
 )
 
 // FilespaceWrapper is memory filespace wraper
@@ -145,6 +146,9 @@ func (w *FilespaceWrapper) Remove(path string) (err error) {
 	if path, err = varutil.ReduceAbsPath(path); err != nil {
 		return err
 	}
+	if path == "" {
+		return goaterr.Errorf("Remove: the filespace root can not be removed")
+	}
 	return w.fs.Remove(w.basePath + path)
 }
 
@@ -152,6 +156,9 @@ func (w *FilespaceWrapper) Remove(path string) (err error) {
 func (w *FilespaceWrapper) RemoveAll(path string) (err error) {
 	if path, err = varutil.ReduceAbsPath(path); err != nil {
 		return err
+	}
+	if path == "" {
+		return goaterr.Errorf("RemoveAll: the filespace root can not be removed")
 	}
 	return w.fs.RemoveAll(w.basePath + path)
 }
